@@ -236,6 +236,63 @@ pub fn eval(ctx: &mut Ctx, op: &str, args: &[Sexp]) -> Option<String> {
             for a in &args[5..] {
                 tys.push(DTy::from_sexp(a)?);
             }
+            if adapter == "slice" {
+                // the slice flavour: Deserializer::from_bytes(input), several values, finalize = the remainder;
+                // the input sits flush against a guard page, so any over-read is a fault attributed to this line
+                let pages = Pages::new(&stream, true);
+                let input: &[u8] = pages.slice();
+                let (ibase, ilen) = (input.as_ptr() as usize, input.len());
+                let r: Result<Result<String, String>, ()> = guard(|| {
+                    let mut out = String::from("deseq");
+                    let mut de = postcard::Deserializer::from_bytes(input);
+                    let mut failed = false;
+                    for t in &tys {
+                        BORROWS.with(|b| b.borrow_mut().clear());
+                        match with_ty(t, || <DynVal as serde::Deserialize>::deserialize(&mut de)) {
+                            Ok(v) => {
+                                if !failed {
+                                    out.push_str(&format!(" | ok {}", v.0));
+                                }
+                                let bad = BORROWS.with(|b| b.borrow().iter().any(|(p, l, _)| *l > 0 && (*p < ibase || p + l > ibase + ilen)));
+                                if bad {
+                                    return Err("borrowed data lies outside the input".to_string());
+                                }
+                            }
+                            Err(e) => {
+                                if !failed {
+                                    out.push_str(&format!(" | err {} | posterr", err_name(&e)));
+                                    failed = true;
+                                }
+                            }
+                        }
+                    }
+                    match de.finalize() {
+                        Ok(rest) => {
+                            let (p, l) = (rest.as_ptr() as usize, rest.len());
+                            if p < ibase || p + l != ibase + ilen {
+                                return Err("the remainder returned by finalize is not a suffix of the input".to_string());
+                            }
+                            if !failed {
+                                out.push_str(&format!(" | fin rest={}", hex(rest)));
+                            }
+                        }
+                        Err(_) => {
+                            if !failed {
+                                out.push_str(" | fin err");
+                            }
+                        }
+                    }
+                    Ok(out)
+                });
+                return Some(match r {
+                    Err(()) => "FAIL panic while one Deserializer over a slice was used for several values".into(),
+                    Ok(Err(e)) => {
+                        ctx.oracle_fail(e.clone());
+                        format!("FAIL {}", e)
+                    }
+                    Ok(Ok(s)) => s,
+                });
+            }
             let mut scratch_pages = Pages::new(&vec![0xEEu8; scratch_len], true);
             let sbase = scratch_pages.slice().as_ptr() as usize;
             let rd = SchedReader { data: stream.clone(), pos: 0, fault, rng: Rng::new(sched), whole: sched == 0, one: sched == 1, transient: false };
@@ -511,6 +568,11 @@ pub fn gen_deseq(r: &mut Rng, thorough: bool, out: &mut Vec<String>) {
         for sc in scr {
             out.push(format!("deseq {} none {} {} {} {}", adapter, sc, r.below(3), hex(&stream), tystr));
         }
+        // the same through ONE Deserializer::from_bytes over the slice: whole, with trailing bytes, and below
+        out.push(format!("deseq slice none 0 0 {} {}", hex(&stream), tystr));
+        let mut ext = stream.clone();
+        ext.extend(r.bytes(3));
+        out.push(format!("deseq slice none 0 0 {} {}", hex(&ext), tystr));
         // reader faults inside the stream, and malformed / truncated input in the middle
         if !stream.is_empty() {
             let f = r.below(stream.len() as u64) as usize;
@@ -520,6 +582,8 @@ pub fn gen_deseq(r: &mut Rng, thorough: bool, out: &mut Vec<String>) {
             c[kx] = r.next() as u8;
             out.push(format!("deseq {} none {} {} {} {}", adapter, total, 1, hex(&c), tystr));
             out.push(format!("deseq {} none {} {} {} {}", adapter, total, 1, hex(&stream[..kx]), tystr));
+            out.push(format!("deseq slice none 0 0 {} {}", hex(&c), tystr));
+            out.push(format!("deseq slice none 0 0 {} {}", hex(&stream[..kx]), tystr));
         }
     }
 }
